@@ -143,9 +143,39 @@ def run(ctx):
     tests = [s for s in walk_no_nested(op.node) if isinstance(s, ast.If) and 'pid' in norm(s.test)]
     ok = bool(tests) and any('forked_pools.append' in norm(x) for x in tests[0].body) and any(norm(x).startswith(op.recv + '.pid =') for x in tests[0].body)
     ctx.ob('C36-SUB.oracle-pool-recreated-after-fork', op, tests[0] if tests else op.node, ok, '' if ok else 'OraPool.connect does not replace the session pool after a fork')
+    # ---------------------------------------------------------------- PATH
+    # parent and child must mean the same file: the name given to the pool is resolved once, at bind time, to an absolute path.  A relative
+    # name is resolved again by every new connection -- a child that changed its working directory opens (or creates) another database.
+    from ..typestate import scenario_edges
+    from ..q import reaching_defs, value_of_def
+    gp = repo.fn('pony.orm.dbproviders.sqlite', 'SQLiteProvider.get_pool'); g = cg.cfg(gp)
+    fparam = gp.params[2]
+    def file_atom(text, node):
+        if text == gp.params[1]: return False                                        # not a shared in-memory database
+        if isinstance(node, ast.Compare) and dotted(node.left) == fparam and isinstance(node.comparators[0], ast.Constant) and node.comparators[0].value == ':memory:':
+            return isinstance(node.ops[0], ast.NotEq)
+        return None
+    eo = scenario_edges(g, gp.node, file_atom, resolve=False)
+    pools = nodes_calling(g, lambda c: dotted(c.func) == 'SQLitePool')
+    ctx.need(pools, 'C36: SQLiteProvider.get_pool no longer creates a SQLitePool')
+    for pn in pools:
+        call = [c for c in pn.calls() if dotted(c.func) == 'SQLitePool'][0]
+        arg = call.args[1] if len(call.args) > 1 else None
+        bad = []
+        def absolute(e, at, depth=0):
+            if isinstance(e, ast.Call) and dotted(e.func) in ('absolutize_path', 'os.path.abspath', 'os.path.realpath'): return True
+            if isinstance(e, ast.Name) and depth < 4:
+                ds = reaching_defs(g, at, e.id, with_params=True, edge_ok=eo)
+                return bool(ds) and all(value_of_def(d, e.id) is not None and absolute(value_of_def(d, e.id), d, depth + 1) for d in ds)
+            return False
+        ok = arg is not None and absolute(arg, pn)
+        ctx.ob('C36-PATH.database-file-name-is-absolute-on-every-path', gp, pn.ast, ok,
+               '' if ok else 'for a file database the name handed to SQLitePool can be the name as given (relative): every new connection resolves it against the current '
+               'working directory, so a forked child that changed directory works on a different file than its parent', node=pn.ast)
 
 
 MUTANTS = [
+    dict(id='C36-path', file='pony/orm/dbproviders/sqlite.py', fn='SQLiteProvider.get_pool', old="            filename = absolutize_path(filename, frame_depth=cut_traceback_depth+5)", new="            if not os.path.exists(filename): filename = absolutize_path(filename, frame_depth=cut_traceback_depth+5)", expect='C36-PATH'),
     dict(id='C36-m1', file='pony/orm/dbapiprovider.py', fn='Pool.connect',
          old='        if pool.con is not None and pool.pid != pid:\n            pool.forked_connections.append((pool.con, pool.pid))\n            pool.con = pool.pid = None\n', new='', expect='C36-OWNER'),
     dict(id='C36-m2', file='pony/orm/dbapiprovider.py', fn='Pool.connect', old='            pool._connect()\n            pool.pid = pid', new='            pool.pid = pid\n            pool._connect()', benign=True),
